@@ -366,14 +366,32 @@ func VerifC03Readonly() {
 		}
 		done <- struct{}{}
 	}()
-	go func() { // the partition becomes read-only
-		l.SetReadonly(true)
-		done <- struct{}{}
-	}()
-	go func() { // replication catches up: everything in the log is committed
-		l.SetHighWatermark(int64(n - 1))
-		done <- struct{}{}
-	}()
+	if vParam("merged", 0) == 1 {
+		// one writer does both, in either order (with a pre-emption bound of 1
+		// this still covers "both inside one window of the reader" and "the
+		// reader runs between the two")
+		first := vChoose(2)
+		go func() {
+			if first == 0 {
+				l.SetReadonly(true)
+				l.SetHighWatermark(int64(n - 1))
+			} else {
+				l.SetHighWatermark(int64(n - 1))
+				l.SetReadonly(true)
+			}
+			done <- struct{}{}
+			done <- struct{}{}
+		}()
+	} else {
+		go func() { // the partition becomes read-only
+			l.SetReadonly(true)
+			done <- struct{}{}
+		}()
+		go func() { // replication catches up: everything in the log is committed
+			l.SetHighWatermark(int64(n - 1))
+			done <- struct{}{}
+		}()
+	}
 	<-done
 	<-done
 	<-done
